@@ -53,10 +53,13 @@ func (p *Program) implsOf(m *types.Func) []*ssa.Function {
 
 var modCache map[*ssa.Function]*modSummary
 
+var modCacheFor *Program
+
 func (p *Program) computeMods() {
-	if modCache != nil {
+	if modCache != nil && modCacheFor == p {
 		return
 	}
+	modCacheFor = p
 	modCache = map[*ssa.Function]*modSummary{}
 	local := map[*ssa.Function]*modSummary{}
 	calls := map[*ssa.Function][]callEdge{}
@@ -256,6 +259,56 @@ func (p *Program) modContainer(ms *modSummary, v ssa.Value) {
 		return
 	}
 	ms.unknown = true
+}
+
+var neverNilMemo map[types.Object]bool
+var neverNilFor *Program
+
+// neverNilGlobal: a package-level variable of pike that is assigned exactly once,
+// in its package initialiser, from an expression that cannot be nil (an error
+// constructor, a compiled regexp, a composite literal).
+func (p *Program) neverNilGlobal(obj types.Object) bool {
+	if obj == nil {
+		return false
+	}
+	if neverNilMemo == nil || neverNilFor != p {
+		neverNilFor = p
+		neverNilMemo = map[types.Object]bool{}
+		stores := map[*ssa.Global][]*ssa.Store{}
+		for _, f := range p.allFuncs {
+			for _, b := range f.Blocks {
+				for _, in := range b.Instrs {
+					if st, ok := in.(*ssa.Store); ok {
+						if g, ok := st.Addr.(*ssa.Global); ok {
+							stores[g] = append(stores[g], st)
+						}
+					}
+				}
+			}
+		}
+		for g, sts := range stores {
+			if len(sts) != 1 || sts[0].Parent().Name() != "init" {
+				continue
+			}
+			v := stripConv(sts[0].Val)
+			ok := false
+			switch x := v.(type) {
+			case *ssa.Alloc:
+				ok = true
+			case *ssa.Call:
+				if sc := x.Call.StaticCallee(); sc != nil {
+					switch sc.String() {
+					case "errors.New", "fmt.Errorf", "regexp.MustCompile", pikeMod + "/util.NewError":
+						ok = true
+					}
+				}
+			}
+			if ok {
+				neverNilMemo[g.Object()] = true
+			}
+		}
+	}
+	return neverNilMemo[obj]
 }
 
 func (p *Program) mods(f *ssa.Function) *modSummary {
